@@ -1,7 +1,13 @@
 //! Manage iterative queries and their corresponding request/response.
 
+#[cfg(not(mainline_verif))]
 use std::collections::HashMap;
+#[cfg(mainline_verif)]
+use std::collections::BTreeMap as HashMap;
+#[cfg(not(mainline_verif))]
 use std::collections::HashSet;
+#[cfg(mainline_verif)]
+use std::collections::BTreeSet as HashSet;
 use std::net::SocketAddrV4;
 
 use tracing::{debug, trace};
